@@ -198,7 +198,15 @@ Pick(t) == pc[t] = "idle" /\ \A u \in Thr : pc[u] = "idle" => t <= u
 Done(t) == /\ pc' = [pc EXCEPT ![t] = "idle"]
            /\ rq' = [rq EXCEPT ![t] = NoReq]
 
-TokenOpens(s, p, tok) == tok = "own" /\ (AadBinds => p = sinfo[s].owner)
+\* openSessionToken succeeds / fails.  Complementary in every mode but "trace": a recorded execution
+\* is accepted whichever of the two layers (AEAD AAD, registry principal check) turned a foreign
+\* identity away, and whichever of the server-id check and the per-worker registry turned a foreign
+\* worker away — the property is about the outcome (session_lost), not the layer.
+TokenOpens(s, p, tok) == tok = "own" /\ (p = sinfo[s].owner \/ ~AadBinds \/ Mode = "trace")
+TokenFails(s, p, tok) == tok # "own" \/ (p # sinfo[s].owner /\ (AadBinds \/ Mode = "trace"))
+WorkerOK(s, w) == w = sinfo[s].home \/ Mode = "trace"
+\* the entry of the presented session is in the registry of the worker serving request t
+Present(t) == reg[rq[t].s].in /\ sinfo[rq[t].s].home = rq[t].w
 
 --------------------------------------------------------------------------
 (* Requests without a session token: the handler may call OpenSession.    *)
@@ -218,7 +226,7 @@ StartPlain(t, p, w, script, ttl, acc) ==
 \* touched (pure: these requests do not even consume the request budget)
 Resume_TokenFail(t, s, p, w, tok, script) ==
     /\ CanStart /\ Pick(t) /\ cnt.req < MaxReq /\ sinfo[s].pub
-    /\ ~TokenOpens(s, p, tok)
+    /\ TokenFails(s, p, tok)
     /\ UNCHANGED <<reg, sinfo, closed, lock, pending, draining, down, now, pc, rq, op, cnt>>
     /\ St("Resume_TokenFail", t, [s |-> s, prin |-> p, w |-> w, tok |-> tok, script |-> ScriptOps(script)],
           [lost |-> TRUE, res |-> "lost"])
@@ -233,7 +241,7 @@ Resume_WrongWorker(t, s, p, w, tok, script) ==
 
 Resume_TokenOK(t, s, p, w, tok, script) ==
     /\ CanStart /\ Pick(t) /\ cnt.req < MaxReq /\ sinfo[s].pub
-    /\ TokenOpens(s, p, tok) /\ w = sinfo[s].home
+    /\ TokenOpens(s, p, tok) /\ WorkerOK(s, w)
     /\ Cardinality(FreeSlots) > Cardinality(OpenersInFlight) \/ ~\E i \in 1..Len(ScriptOps(script)) : ScriptOps(script)[i] = "open"
     /\ pc' = [pc EXCEPT ![t] = "get"]
     /\ rq' = [rq EXCEPT ![t] = [NoReq EXCEPT !.kind = "resume", !.s = s, !.prin = p, !.w = w, !.tok = tok,
@@ -245,14 +253,14 @@ Resume_TokenOK(t, s, p, w, tok, script) ==
 
 Delete_TokenFail(t, s, p, w, tok) ==
     /\ CanStart /\ Pick(t) /\ cnt.req < MaxReq /\ sinfo[s].pub
-    /\ ~(TokenOpens(s, p, tok) /\ w = sinfo[s].home)
+    /\ TokenFails(s, p, tok) \/ w # sinfo[s].home
     /\ UNCHANGED <<reg, sinfo, closed, lock, pending, draining, down, now, pc, rq, op, cnt>>
     /\ St("Delete_TokenFail", t, [s |-> s, prin |-> p, w |-> w, tok |-> tok],
           [lost |-> TRUE, res |-> "d200"])
 
 Delete_TokenOK(t, s, p, w, tok) ==
     /\ CanStart /\ Pick(t) /\ cnt.req < MaxReq /\ sinfo[s].pub
-    /\ TokenOpens(s, p, tok) /\ w = sinfo[s].home
+    /\ TokenOpens(s, p, tok) /\ WorkerOK(s, w)
     /\ pc' = [pc EXCEPT ![t] = "get"]
     /\ rq' = [rq EXCEPT ![t] = [NoReq EXCEPT !.kind = "delete", !.s = s, !.prin = p, !.w = w, !.tok = tok]]
     /\ cnt' = [cnt EXCEPT !.req = @ + 1]
@@ -264,7 +272,7 @@ Delete_TokenOK(t, s, p, w, tok) ==
 LostRes(t) == IF rq[t].kind = "delete" THEN "d200" ELSE "lost"
 
 Get_Miss(t) ==
-    /\ CanStep /\ pc[t] = "get" /\ ~reg[rq[t].s].in
+    /\ CanStep /\ pc[t] = "get" /\ ~Present(t)
     /\ Done(t)
     /\ UNCHANGED <<reg, sinfo, closed, lock, pending, draining, down, now, op, cnt>>
     /\ St("Get_Miss", t, [s |-> rq[t].s], [lost |-> TRUE, res |-> LostRes(t)])
@@ -272,7 +280,7 @@ Get_Miss(t) ==
 \* expired: delete from the map under r.mu; Close is owed by this thread, outside r.mu
 Get_ExpiredEvict(t) ==
     LET s == rq[t].s IN
-    /\ CanStep /\ pc[t] = "get" /\ reg[s].in /\ Expired(s, now)
+    /\ CanStep /\ pc[t] = "get" /\ Present(t) /\ Expired(s, now)
     /\ reg' = [reg EXCEPT ![s].in = FALSE]
     /\ pending' = [pending EXCEPT ![s] = t]
     /\ pc' = [pc EXCEPT ![t] = "evict"]
@@ -291,14 +299,14 @@ Evict_RunClose(t) ==
 \* defence in depth: unreachable while AadBinds (the AAD already failed)
 Get_PrinMismatch(t) ==
     LET s == rq[t].s IN
-    /\ CanStep /\ pc[t] = "get" /\ reg[s].in /\ ~Expired(s, now) /\ reg[s].prin # rq[t].prin
+    /\ CanStep /\ pc[t] = "get" /\ Present(t) /\ ~Expired(s, now) /\ reg[s].prin # rq[t].prin
     /\ Done(t)
     /\ UNCHANGED <<reg, sinfo, closed, lock, pending, draining, down, now, op, cnt>>
     /\ St("Get_PrinMismatch", t, [s |-> s], [lost |-> TRUE, res |-> LostRes(t)])
 
 Get_Hit(t) ==
     LET s == rq[t].s IN
-    /\ CanStep /\ pc[t] = "get" /\ reg[s].in /\ ~Expired(s, now) /\ reg[s].prin = rq[t].prin
+    /\ CanStep /\ pc[t] = "get" /\ Present(t) /\ ~Expired(s, now) /\ reg[s].prin = rq[t].prin
     /\ pc' = [pc EXCEPT ![t] = "prelock"]
     /\ rq' = [rq EXCEPT ![t].ent = s]
     /\ UNCHANGED <<reg, sinfo, closed, lock, pending, draining, down, now, op, cnt>>
